@@ -34,6 +34,268 @@ func str(fset *token.FileSet, n ast.Node) string {
 	return strings.Join(strings.Fields(b.String()), " ")
 }
 
+// show prints an expression built by subst (nodes without positions) in one canonical form.
+func show(fset *token.FileSet, e ast.Expr) string {
+	switch x := e.(type) {
+	case *ast.Ident:
+		return x.Name
+	case *ast.BasicLit:
+		return x.Value
+	case *ast.ParenExpr:
+		return "(" + show(fset, x.X) + ")"
+	case *ast.SelectorExpr:
+		return show(fset, x.X) + "." + x.Sel.Name
+	case *ast.StarExpr:
+		return "*" + show(fset, x.X)
+	case *ast.UnaryExpr:
+		return x.Op.String() + show(fset, x.X)
+	case *ast.BinaryExpr:
+		return show(fset, x.X) + " " + x.Op.String() + " " + show(fset, x.Y)
+	case *ast.IndexExpr:
+		return show(fset, x.X) + "[" + show(fset, x.Index) + "]"
+	case *ast.CallExpr:
+		var as []string
+		for _, a := range x.Args {
+			as = append(as, show(fset, a))
+		}
+		return show(fset, x.Fun) + "(" + strings.Join(as, ", ") + ")"
+	}
+	return str(fset, e)
+}
+
+func unparen(e ast.Expr) ast.Expr {
+	for {
+		p, ok := e.(*ast.ParenExpr)
+		if !ok {
+			return e
+		}
+		e = p.X
+	}
+}
+
+// onlyTrailingReturn returns the last statement of fd when it is the ONLY return statement of the
+// body and everything before it is a plain local definition (`x := e`, `var x = e`); nil otherwise.
+func onlyTrailingReturn(fd *ast.FuncDecl) *ast.ReturnStmt {
+	l := fd.Body.List
+	ret, ok := l[len(l)-1].(*ast.ReturnStmt)
+	if !ok {
+		return nil
+	}
+	for _, st := range l[:len(l)-1] {
+		switch x := st.(type) {
+		case *ast.AssignStmt:
+			if x.Tok != token.DEFINE {
+				return nil
+			}
+		case *ast.DeclStmt:
+		default:
+			return nil
+		}
+	}
+	n := 0
+	ast.Inspect(fd.Body, func(x ast.Node) bool {
+		if _, ok := x.(*ast.ReturnStmt); ok {
+			n++
+		}
+		return true
+	})
+	if n != 1 {
+		return nil
+	}
+	return ret
+}
+
+// locals is the def-use summary of one function: for every variable declared inside the body the
+// expression it is defined by (idx >= 0: the idx-th result of a multi-valued call), and the set of
+// variables (locals, parameters, receiver) that are written more than once, assigned through,
+// incremented or address-taken (`&x`) - those are never followed. (A call of a pointer-receiver
+// method on an addressable variable is not counted as a write: the printed chain names the call.)
+type locals struct {
+	info *types.Info
+	fd   *ast.FuncDecl
+	def  map[types.Object]ast.Expr
+	idx  map[types.Object]int
+	bad  map[types.Object]bool
+}
+
+func rootIdent(e ast.Expr) *ast.Ident {
+	for {
+		switch x := e.(type) {
+		case *ast.Ident:
+			return x
+		case *ast.SelectorExpr:
+			e = x.X
+		case *ast.IndexExpr:
+			e = x.X
+		case *ast.SliceExpr:
+			e = x.X
+		case *ast.StarExpr:
+			e = x.X
+		case *ast.ParenExpr:
+			e = x.X
+		default:
+			return nil
+		}
+	}
+}
+
+func analyse(info *types.Info, fd *ast.FuncDecl) *locals {
+	l := &locals{info, fd, map[types.Object]ast.Expr{}, map[types.Object]int{}, map[types.Object]bool{}}
+	markRoot := func(e ast.Expr) {
+		if id := rootIdent(e); id != nil {
+			if o := info.Uses[id]; o != nil {
+				l.bad[o] = true
+			}
+			if o := info.Defs[id]; o != nil {
+				l.bad[o] = true
+			}
+		}
+	}
+	define := func(lhs []ast.Expr, rhs []ast.Expr) {
+		for i, e := range lhs {
+			id, ok := e.(*ast.Ident)
+			if !ok {
+				markRoot(e)
+				continue
+			}
+			o := info.Defs[id]
+			if o == nil { // `:=` re-using an existing variable: a second write
+				if u := info.Uses[id]; u != nil {
+					l.bad[u] = true
+				}
+				continue
+			}
+			switch {
+			case len(rhs) == len(lhs):
+				l.def[o], l.idx[o] = rhs[i], -1
+			case len(rhs) == 1:
+				l.def[o], l.idx[o] = rhs[0], i
+			}
+		}
+	}
+	ast.Inspect(fd.Body, func(n ast.Node) bool {
+		switch x := n.(type) {
+		case *ast.AssignStmt:
+			if x.Tok == token.DEFINE {
+				define(x.Lhs, x.Rhs)
+			} else {
+				for _, e := range x.Lhs {
+					markRoot(e)
+				}
+			}
+		case *ast.ValueSpec:
+			for i, id := range x.Names {
+				o := info.Defs[id]
+				if o == nil {
+					continue
+				}
+				switch {
+				case len(x.Values) == len(x.Names):
+					l.def[o], l.idx[o] = x.Values[i], -1
+				case len(x.Values) == 1:
+					l.def[o], l.idx[o] = x.Values[0], i
+				}
+			}
+		case *ast.IncDecStmt:
+			markRoot(x.X)
+		case *ast.UnaryExpr:
+			if x.Op == token.AND {
+				markRoot(x.X)
+			}
+		case *ast.RangeStmt:
+			if x.Tok == token.ASSIGN {
+				if x.Key != nil {
+					markRoot(x.Key)
+				}
+				if x.Value != nil {
+					markRoot(x.Value)
+				}
+			}
+		}
+		return true
+	})
+	return l
+}
+
+func (l *locals) inFunc(o types.Object) bool {
+	_, isVar := o.(*types.Var)
+	return isVar && o.Pos() >= l.fd.Pos() && o.Pos() < l.fd.End()
+}
+
+// subst returns e with every single-assignment local replaced (recursively) by its defining
+// expression; the first result of a multi-valued call stands for the call. The second result is a
+// non-empty reason when some variable of e cannot be followed (fail closed).
+func (l *locals) subst(e ast.Expr) (ast.Expr, string) {
+	why := ""
+	var rec func(e ast.Expr, depth int) ast.Expr
+	rec = func(e ast.Expr, depth int) ast.Expr {
+		if depth > 20 {
+			why = "definition chain too deep"
+			return e
+		}
+		switch x := e.(type) {
+		case nil:
+			return nil
+		case *ast.Ident:
+			o := l.info.Uses[x]
+			if o == nil || !l.inFunc(o) {
+				return x
+			}
+			if l.bad[o] {
+				why = "variable `" + x.Name + "` is written more than once or address-taken"
+				return x
+			}
+			d, isLocal := l.def[o]
+			if !isLocal { // parameter, receiver, range variable, `var x T`
+				if o.Pos() >= l.fd.Body.Pos() {
+					why = "local `" + x.Name + "` has no single defining expression"
+				}
+				return x
+			}
+			if l.idx[o] > 0 {
+				why = "local `" + x.Name + "` is a secondary result of a call"
+				return x
+			}
+			return rec(d, depth+1)
+		case *ast.BasicLit:
+			return x
+		case *ast.ParenExpr:
+			return &ast.ParenExpr{X: rec(x.X, depth)}
+		case *ast.SelectorExpr:
+			return &ast.SelectorExpr{X: rec(x.X, depth), Sel: x.Sel}
+		case *ast.StarExpr:
+			return &ast.StarExpr{X: rec(x.X, depth)}
+		case *ast.UnaryExpr:
+			return &ast.UnaryExpr{Op: x.Op, X: rec(x.X, depth)}
+		case *ast.BinaryExpr:
+			return &ast.BinaryExpr{X: rec(x.X, depth), Op: x.Op, Y: rec(x.Y, depth)}
+		case *ast.IndexExpr:
+			return &ast.IndexExpr{X: rec(x.X, depth), Index: rec(x.Index, depth)}
+		case *ast.CallExpr:
+			c := &ast.CallExpr{Fun: rec(x.Fun, depth)}
+			for _, a := range x.Args {
+				c.Args = append(c.Args, rec(a, depth))
+			}
+			if x.Ellipsis.IsValid() {
+				c.Ellipsis = 1
+			}
+			return c
+		}
+		// any other expression form: accepted only when it mentions no variable of this function
+		ast.Inspect(e, func(n ast.Node) bool {
+			if id, ok := n.(*ast.Ident); ok {
+				if o := l.info.Uses[id]; o != nil && l.inFunc(o) {
+					why = "expression form around `" + id.Name + "` not followed"
+				}
+			}
+			return true
+		})
+		return e
+	}
+	r := rec(e, 0)
+	return r, why
+}
+
 func main() {
 	repo := flag.String("repo", "/repo", "repository root")
 	out := flag.String("out", "", "output .lean file")
@@ -96,25 +358,37 @@ func main() {
 		if !types.Implements(tn.Type(), iface) && !types.Implements(types.NewPointer(tn.Type()), iface) {
 			continue
 		}
-		// DomainName: a single `return signing.DomainX`
+		// DomainName: local definitions followed by the only return; the returned expression, with
+		// single-assignment locals replaced by their definitions, is a constant of package signing.
 		dn := decls[n+".DomainName"]
-		if dn == nil || len(dn.Body.List) != 1 {
+		if dn == nil || len(dn.Body.List) == 0 {
 			fail("%s.DomainName: body not understood", n)
 		}
-		ret, ok := dn.Body.List[0].(*ast.ReturnStmt)
-		if !ok || len(ret.Results) != 1 {
+		dl := analyse(info, dn)
+		ret := onlyTrailingReturn(dn)
+		if ret == nil || len(ret.Results) != 1 {
 			fail("%s.DomainName: body not understood", n)
 		}
-		sel, ok := ret.Results[0].(*ast.SelectorExpr)
-		if !ok {
-			fail("%s.DomainName: returns %s", n, str(fset, ret.Results[0]))
+		de, bad := dl.subst(ret.Results[0])
+		if bad != "" {
+			fail("%s.DomainName: %s", n, bad)
 		}
-		c, ok := info.Uses[sel.Sel].(*types.Const)
-		if !ok || c.Pkg().Name() != "signing" {
-			fail("%s.DomainName: %s is not a constant of package signing", n, str(fset, sel))
+		var cid *ast.Ident
+		switch x := unparen(de).(type) {
+		case *ast.SelectorExpr:
+			cid = x.Sel
+		case *ast.Ident:
+			cid = x
+		default:
+			fail("%s.DomainName: returns %s", n, show(fset, de))
+		}
+		c, ok := info.Uses[cid].(*types.Const)
+		if !ok || c.Pkg() == nil || c.Pkg().Name() != "signing" {
+			fail("%s.DomainName: %s is not a constant of package signing", n, show(fset, de))
 		}
 		domain := strings.Trim(c.Val().ExactString(), `"`)
-		// Epoch: classify the last return
+		// Epoch: classify the last return (single-assignment locals replaced by their definitions,
+		// the result printed relative to the receiver; no identifier NAME is looked at).
 		ep := decls[n+".Epoch"]
 		if ep == nil || len(ep.Body.List) == 0 {
 			fail("%s.Epoch: not found", n)
@@ -123,31 +397,61 @@ func main() {
 		if !ok || len(last.Results) == 0 {
 			fail("%s.Epoch: last statement is not a return", n)
 		}
-		kind := ""
-		switch e := last.Results[0].(type) {
-		case *ast.CallExpr:
-			if s, ok := e.Fun.(*ast.SelectorExpr); ok && s.Sel.Name == "EpochFromSlot" && len(e.Args) == 3 {
-				arg := str(fset, e.Args[2])
-				if id, ok := e.Args[2].(*ast.Ident); ok && id.Name == "slot" {
-					arg = "Slot()"
-				} else if i := strings.Index(arg, "."); i >= 0 {
-					arg = arg[i+1:]
+		el := analyse(info, ep)
+		var recv types.Object
+		if len(ep.Recv.List[0].Names) == 1 {
+			recv = info.Defs[ep.Recv.List[0].Names[0]]
+		}
+		// relRecv prints a selector / call chain rooted at the receiver without the receiver.
+		relRecv := func(e ast.Expr) string {
+			root := e
+			for {
+				switch x := root.(type) {
+				case *ast.SelectorExpr:
+					root = x.X
+					continue
+				case *ast.CallExpr:
+					if len(x.Args) == 0 {
+						root = x.Fun
+						continue
+					}
+				case *ast.ParenExpr:
+					root = x.X
+					continue
 				}
-				kind = "slot:" + arg
+				break
+			}
+			id, ok := root.(*ast.Ident)
+			if !ok || recv == nil || info.Uses[id] != recv {
+				fail("%s.Epoch: %s is not read from the receiver", n, show(fset, e))
+			}
+			s := show(fset, e)
+			if !strings.HasPrefix(s, id.Name+".") {
+				fail("%s.Epoch: %s is not a field / method chain of the receiver", n, s)
+			}
+			return s[len(id.Name)+1:]
+		}
+		re, bad := el.subst(last.Results[0])
+		if bad != "" {
+			fail("%s.Epoch: return %s: %s", n, str(fset, last.Results[0]), bad)
+		}
+		kind := ""
+		switch e := unparen(re).(type) {
+		case *ast.CallExpr:
+			if s, ok := e.Fun.(*ast.SelectorExpr); ok && len(e.Args) == 3 {
+				if f, ok := info.Uses[s.Sel].(*types.Func); ok && f.Name() == "EpochFromSlot" && f.Pkg() != nil && f.Pkg().Name() == "eth2util" {
+					kind = "slot:" + relRecv(e.Args[2])
+				}
 			}
 		case *ast.SelectorExpr:
-			s := str(fset, e)
-			if i := strings.Index(s, "."); i >= 0 {
-				s = s[i+1:]
-			}
-			kind = "field:" + s
+			kind = "field:" + relRecv(e)
 		case *ast.BasicLit:
 			if e.Value == "0" {
 				kind = "zero"
 			}
 		}
 		if kind == "" {
-			fail("%s.Epoch: return %s not understood", n, str(fset, last.Results[0]))
+			fail("%s.Epoch: return %s not understood", n, show(fset, re))
 		}
 		rows = append(rows, rowT{n, domain, kind})
 	}
@@ -162,14 +466,17 @@ func main() {
 			if !ok || fd.Name.Name != "VerifyEth2SignedData" || fd.Recv != nil || fd.Body == nil {
 				continue
 			}
-			ps := fd.Type.Params.List
+			var ps []*ast.Ident
+			for _, p := range fd.Type.Params.List {
+				ps = append(ps, p.Names...)
+			}
 			if len(ps) != 4 {
 				fail("VerifyEth2SignedData: parameters not understood")
 			}
-			data, pub := info.Defs[ps[2].Names[0]], info.Defs[ps[3].Names[0]]
-			var epochObj, rootObj types.Object
+			data, pub := info.Defs[ps[2]], info.Defs[ps[3]]
+			vl := analyse(info, fd)
 			isDataCall := func(e ast.Expr, m string) bool {
-				c, ok := e.(*ast.CallExpr)
+				c, ok := unparen(e).(*ast.CallExpr)
 				if !ok {
 					return false
 				}
@@ -177,24 +484,11 @@ func main() {
 				if !ok || s.Sel.Name != m {
 					return false
 				}
-				id, ok := s.X.(*ast.Ident)
-				return ok && info.Uses[id] == data
+				id, ok := unparen(s.X).(*ast.Ident)
+				return ok && info.Uses[id] == data && !vl.bad[data]
 			}
-			for _, st := range fd.Body.List {
-				as, ok := st.(*ast.AssignStmt)
-				if !ok || len(as.Lhs) != 2 || len(as.Rhs) != 1 {
-					continue
-				}
-				id, _ := as.Lhs[0].(*ast.Ident)
-				if id == nil {
-					continue
-				}
-				if isDataCall(as.Rhs[0], "Epoch") {
-					epochObj = info.Defs[id]
-				}
-				if isDataCall(as.Rhs[0], "MessageRoot") {
-					rootObj = info.Defs[id]
-				}
+			if len(fd.Body.List) == 0 {
+				continue
 			}
 			last, ok := fd.Body.List[len(fd.Body.List)-1].(*ast.ReturnStmt)
 			if !ok || len(last.Results) != 1 {
@@ -205,23 +499,38 @@ func main() {
 				continue
 			}
 			s, ok := c.Fun.(*ast.SelectorExpr)
-			if !ok || s.Sel.Name != "Verify" {
+			if !ok {
 				continue
 			}
-			useOf := func(e ast.Expr) types.Object {
-				if id, ok := e.(*ast.Ident); ok {
-					return info.Uses[id]
+			if f, ok := info.Uses[s.Sel].(*types.Func); !ok || f.Name() != "Verify" || f.Pkg() == nil || f.Pkg().Name() != "signing" {
+				continue
+			}
+			// every argument with its single-assignment locals replaced by their definitions
+			var a [7]ast.Expr
+			okArgs := true
+			for i := 2; i < 7; i++ {
+				e, bad := vl.subst(c.Args[i])
+				if bad != "" {
+					fmt.Println("VerifyEth2SignedData: argument", i, "not followed:", bad)
+					okArgs = false
+					break
 				}
-				return nil
+				a[i] = e
+			}
+			if !okArgs {
+				continue
 			}
 			sigOK := false
-			if sc, ok := c.Args[5].(*ast.CallExpr); ok { // data.Signature().ToETH2()
+			if sc, ok := unparen(a[5]).(*ast.CallExpr); ok && len(sc.Args) == 0 { // data.Signature().ToETH2()
 				if ss, ok := sc.Fun.(*ast.SelectorExpr); ok && ss.Sel.Name == "ToETH2" {
 					sigOK = isDataCall(ss.X, "Signature")
 				}
 			}
-			shape = isDataCall(c.Args[2], "DomainName") && epochObj != nil && useOf(c.Args[3]) == epochObj &&
-				rootObj != nil && useOf(c.Args[4]) == rootObj && sigOK && useOf(c.Args[6]) == pub
+			pubOK := false
+			if id, ok := unparen(a[6]).(*ast.Ident); ok {
+				pubOK = info.Uses[id] == pub && !vl.bad[pub]
+			}
+			shape = isDataCall(a[2], "DomainName") && isDataCall(a[3], "Epoch") && isDataCall(a[4], "MessageRoot") && sigOK && pubOK
 		}
 	}
 	var b strings.Builder
